@@ -35,8 +35,8 @@ for (const job of input.jobs) {
       results.push({ok: true, s: r, wf: wellFormed(r)});
     } else if (job.op === 'jsstr') {
       // the body must denote the same string between either kind of quotes
-      const a = vm.runInContext("'" + job.body + "'", ctx);
-      const b = vm.runInContext('"' + job.body + '"', ctx);
+      const a = vm.runInContext("('" + job.body + "')", ctx);
+      const b = vm.runInContext('("' + job.body + '")', ctx);
       results.push({ok: typeof a === 'string' && typeof b === 'string', s: a, s2: b, wf: wellFormed(a)});
     } else if (job.op === 'json') {
       results.push({ok: true, s: JSON.stringify(JSON.parse(job.text)), wf: true});
